@@ -143,6 +143,8 @@ type Outcome = Result<String, String>;
 mod decoders {
     use super::Outcome;
     use ciborium::value::Value;
+    use echo_wasm_abi::kernel_port as kp;
+    use warp_core::causal_wal as wal;
 
     pub type Dec = fn(&[u8]) -> Outcome;
 
@@ -209,7 +211,7 @@ mod decoders {
                 } else if s.starts_with("nesting too deep") {
                     "EDepth".into()
                 } else {
-                    format!("Decode:{}", s.chars().take(40).collect::<String>())
+                    "Decode".into()
                 }
             }
             E::Encode(_) => "Encode".into(),
@@ -225,16 +227,348 @@ mod decoders {
         }
     }
 
-    fn edict(b: &[u8]) -> Outcome {
-        let r = echo_edict_canonical::decode_canonical_cbor_v1(b);
+    /// typed result -> Outcome with the peak frozen right after the call
+    fn fin<T, E>(r: Result<T, E>, e: impl FnOnce(&E) -> String) -> Outcome {
         super::mark();
         match r {
             Ok(_) => Ok("ok".into()),
-            Err(e) => Err(format!("{:?}", e.kind())),
+            Err(x) => Err(e(&x)),
         }
     }
+    fn dbg_head<E: std::fmt::Debug>(e: &E) -> String {
+        let s = format!("{e:?}");
+        s.chars().take_while(|c| c.is_ascii_alphanumeric() || *c == '_').collect()
+    }
 
-    const TABLE: &[(&str, Dec)] = &[("abi-cbor", abi_cbor), ("edict", edict)];
+    macro_rules! dto {
+        ($name:ident, $t:ty) => {
+            fn $name(b: &[u8]) -> Outcome {
+                fin(echo_wasm_abi::decode_cbor::<$t>(b), canon_err)
+            }
+        };
+    }
+    dto!(dto_warpgraph, echo_wasm_abi::WarpGraph);
+    dto!(dto_rewrite, echo_wasm_abi::Rewrite);
+    dto!(dto_obsreq, kp::ObservationRequest);
+    dto!(dto_obsoptic, kp::ObserveOpticRequest);
+    dto!(dto_dispoptic, kp::DispatchOpticIntentRequest);
+    dto!(dto_settle, kp::SettlementRequest);
+    dto!(dto_control, kp::ControlIntentV1);
+    dto!(dto_import, kp::ImportSuffixRequest);
+    dto!(dto_sched, kp::SchedulerStatus);
+    dto!(dto_dispresp, kp::OkEnvelope<kp::DispatchResponse>);
+    dto!(dto_reginfo, kp::OkEnvelope<kp::RegistryInfo>);
+    dto!(dto_headinfo, kp::HeadInfo);
+    dto!(dto_errenv, kp::ErrEnvelope);
+    dto!(dto_obsart, kp::OkEnvelope<kp::ObservationArtifact>);
+
+    fn env_intent(b: &[u8]) -> Outcome {
+        fin(echo_wasm_abi::unpack_intent_v1(b), dbg_head)
+    }
+    fn env_control(b: &[u8]) -> Outcome {
+        fin(echo_wasm_abi::unpack_control_intent_v1(b), dbg_head)
+    }
+    fn env_import(b: &[u8]) -> Outcome {
+        fin(echo_wasm_abi::unpack_import_suffix_intent_v1(b), dbg_head)
+    }
+
+    // codec.rs Reader driven through every read_* method by a composite Decode impl
+    #[allow(dead_code)]
+    struct Item {
+        tag: u8,
+        opt: Option<i64>,
+        name: String,
+    }
+    #[allow(dead_code)]
+    struct Composite {
+        a: u32,
+        arr: [u8; 4],
+        b: u16,
+        c: i32,
+        f: f32,
+        flag: bool,
+        blob: Vec<u8>,
+        items: Vec<Item>,
+        nested: Vec<Vec<u8>>,
+    }
+    impl echo_wasm_abi::codec::Decode for Composite {
+        fn decode(r: &mut echo_wasm_abi::codec::Reader<'_>) -> Result<Self, echo_wasm_abi::codec::CodecError> {
+            Ok(Composite {
+                a: r.read_u32_le()?,
+                arr: r.read_byte_array::<4>()?,
+                b: r.read_u16_le()?,
+                c: r.read_i32_le()?,
+                f: r.read_f32_le()?,
+                flag: r.read_bool()?,
+                blob: r.read_len_prefixed_bytes(1 << 16)?.to_vec(),
+                items: r.read_list(|r| {
+                    Ok(Item { tag: r.read_u8()?, opt: r.read_option(|r| r.read_i64_le())?, name: r.read_string(64)? })
+                })?,
+                nested: r.read_list(|r| r.read_list(|r| r.read_u8()))?,
+            })
+        }
+    }
+    impl echo_wasm_abi::codec::Encode for Composite {
+        fn encode(&self, w: &mut echo_wasm_abi::codec::Writer) -> Result<(), echo_wasm_abi::codec::CodecError> {
+            let _ = w;
+            Ok(())
+        }
+    }
+    fn abi_codec(b: &[u8]) -> Outcome {
+        fin(echo_wasm_abi::codec::decode_from_bytes::<Composite>(b), dbg_head)
+    }
+    fn codec_seed() -> Vec<u8> {
+        let mut v = Vec::new();
+        v.extend_from_slice(&7u32.to_le_bytes());
+        v.extend_from_slice(&[1, 2, 3, 4]);
+        v.extend_from_slice(&9u16.to_le_bytes());
+        v.extend_from_slice(&(-5i32).to_le_bytes());
+        v.extend_from_slice(&1.5f32.to_le_bytes());
+        v.push(1);
+        v.extend_from_slice(&3u32.to_le_bytes());
+        v.extend_from_slice(b"abc");
+        v.extend_from_slice(&2u32.to_le_bytes());
+        for t in 0..2u8 {
+            v.push(t);
+            v.push(1);
+            v.extend_from_slice(&(t as i64 - 1).to_le_bytes());
+            v.extend_from_slice(&2u32.to_le_bytes());
+            v.extend_from_slice(b"hi");
+        }
+        v.extend_from_slice(&1u32.to_le_bytes());
+        v.extend_from_slice(&2u32.to_le_bytes());
+        v.extend_from_slice(&[8, 9]);
+        v
+    }
+
+    fn abi_elog(b: &[u8]) -> Outcome {
+        let mut cur: &[u8] = b;
+        let r = (|| -> std::io::Result<usize> {
+            echo_wasm_abi::read_elog_header(&mut cur)?;
+            let mut n = 0;
+            while let Some(_f) = echo_wasm_abi::read_elog_frame(&mut cur)? {
+                n += 1;
+            }
+            Ok(n)
+        })();
+        fin(r, |e| format!("{:?}", e.kind()))
+    }
+
+    fn edict(b: &[u8]) -> Outcome {
+        fin(echo_edict_canonical::decode_canonical_cbor_v1(b), |e| format!("{:?}", e.kind()))
+    }
+
+    fn ingress(b: &[u8]) -> Outcome {
+        fin(warp_core::IngressEnvelope::from_retained_bytes(b), dbg_head)
+    }
+
+    macro_rules! walrec {
+        ($name:ident, $t:ty) => {
+            fn $name(b: &[u8]) -> Outcome {
+                fin(<$t>::from_payload_bytes(b), dbg_head)
+            }
+        };
+    }
+    walrec!(wal_subacc, wal::SubmissionAcceptanceRecord);
+    walrec!(wal_subenv, wal::WalSubmissionEnvelopeRecord);
+    walrec!(wal_statedelta, wal::WalRuntimeStateDeltaRecord);
+    walrec!(wal_tick, wal::TickReceiptRecord);
+    walrec!(wal_corr, wal::WalReceiptCorrelationRecord);
+    walrec!(wal_material, wal::RetainedMaterialRecord);
+    walrec!(wal_reading, wal::ReadingRefRecord);
+    walrec!(wal_checkpoint, wal::CheckpointRecord);
+    walrec!(wal_cppub, wal::CheckpointPublicationRecord);
+    walrec!(wal_matintent, wal::MaterializationIntentRecord);
+    walrec!(wal_matobs, wal::MaterializationObservationRecord);
+    walrec!(wal_fork, wal::StrandForkRecord);
+    walrec!(wal_drop, wal::StrandDropRecord);
+    walrec!(wal_braid, wal::TopologyBraidEventRecord);
+    walrec!(wal_shell, wal::BraidShellRetentionRecord);
+    walrec!(wal_suffix, wal::SuffixImportRecord);
+
+    fn wal_segment_ro(b: &[u8]) -> Outcome {
+        fin(wal::recover_wal_segment_bytes(wal::WalSegmentId::from_raw(1), b, wal::RecoveryAccessMode::ReadOnly), dbg_head)
+    }
+    fn wal_segment_rw(b: &[u8]) -> Outcome {
+        fin(wal::recover_wal_segment_bytes(wal::WalSegmentId::from_raw(1), b, wal::RecoveryAccessMode::Writable), dbg_head)
+    }
+
+    /// WscFile::from_bytes + validate_wsc; when both accept, every public accessor is exercised.
+    fn wsc_touch(file: &warp_core::wsc::WscFile) -> Result<usize, warp_core::wsc::ReadError> {
+        let mut acc = 0usize;
+        let _ = (file.header(), file.tick(), file.schema_hash(), file.data().len());
+        for i in 0..file.warp_count() {
+            let v = file.warp_view(i)?;
+            acc ^= v.warp_id()[0] as usize ^ v.root_node_id()[0] as usize ^ v.blobs().len() ^ v.raw_data().len();
+            v.validate_index_ranges()?;
+            for (ix, n) in v.nodes().iter().enumerate() {
+                acc ^= v.node_ix(&n.node_id).unwrap_or(0);
+                for a in v.node_attachments(ix) {
+                    acc ^= v.blob_for_attachment(a).map(|b| b.len()).unwrap_or(0);
+                }
+                for o in v.out_edges_for_node(ix) {
+                    acc ^= v.edges().get(o.edge_ix() as usize).map(|e| e.edge_id[0] as usize).unwrap_or(1);
+                }
+            }
+            for (ix, e) in v.edges().iter().enumerate() {
+                acc ^= v.edge_ix(&e.edge_id).unwrap_or(0);
+                for a in v.edge_attachments(ix) {
+                    acc ^= v.blob_for_attachment(a).map(|b| b.len()).unwrap_or(0);
+                }
+            }
+        }
+        Ok(acc)
+    }
+    fn wsc(b: &[u8]) -> Outcome {
+        let r = (|| {
+            let file = warp_core::wsc::WscFile::from_bytes(b.to_vec())?;
+            warp_core::wsc::validate_wsc(&file)?;
+            wsc_touch(&file)
+        })();
+        fin(r, dbg_head)
+    }
+    /// header accepted by from_bytes, accessors used WITHOUT validate_wsc (what a careless caller does)
+    fn wsc_view(b: &[u8]) -> Outcome {
+        let r = (|| {
+            let file = warp_core::wsc::WscFile::from_bytes(b.to_vec())?;
+            let mut acc = 0usize;
+            for i in 0..file.warp_count().min(64) {
+                let v = file.warp_view(i)?;
+                v.validate_index_ranges()?;
+                acc ^= v.nodes().len() ^ v.edges().len();
+            }
+            Ok::<usize, warp_core::wsc::ReadError>(acc)
+        })();
+        fin(r, dbg_head)
+    }
+    fn wsc_store_env(b: &[u8]) -> Outcome {
+        fin(warp_core::wsc::WscStoreEnvelope::decode(b), dbg_head)
+    }
+    fn wsc_projection(b: &[u8]) -> Outcome {
+        fin(wal::observe_wal_projection_graph_wsc(b), dbg_head)
+    }
+
+    fn scene_delta(b: &[u8]) -> Outcome {
+        fin(echo_scene_codec::decode_scene_delta(b), |_| "DecodeError".into())
+    }
+    fn scene_camera(b: &[u8]) -> Outcome {
+        fin(echo_scene_codec::decode_camera_state(b), |_| "DecodeError".into())
+    }
+    fn scene_highlight(b: &[u8]) -> Outcome {
+        fin(echo_scene_codec::decode_highlight_state(b), |_| "DecodeError".into())
+    }
+
+    /// byte-in/byte-out host boundary: the reply must itself be a decodable Ok/Err envelope
+    fn envelope_reply(out: Vec<u8>) -> Outcome {
+        super::mark();
+        match echo_wasm_abi::decode_value(&out) {
+            Ok(Value::Map(m)) => {
+                let ok = m.iter().find_map(|(k, v)| match (k, v) {
+                    (Value::Text(t), Value::Bool(b)) if t == "ok" => Some(*b),
+                    _ => None,
+                });
+                match ok {
+                    Some(true) => Ok("ok".into()),
+                    Some(false) => {
+                        let code = m.iter().find_map(|(k, v)| match (k, v) {
+                            (Value::Text(t), Value::Integer(i)) if t == "code" => Some(i128::from(*i)),
+                            _ => None,
+                        });
+                        Err(format!("code{}", code.unwrap_or(-1)))
+                    }
+                    None => panic!("host reply is not an ok/err envelope"),
+                }
+            }
+            _ => panic!("host reply is not canonical CBOR map"),
+        }
+    }
+    fn wasm_dispatch(b: &[u8]) -> Outcome {
+        envelope_reply(warp_wasm::dispatch_intent_cbor(b))
+    }
+    fn wasm_observe(b: &[u8]) -> Outcome {
+        envelope_reply(warp_wasm::observe_cbor(b))
+    }
+    fn wasm_control(b: &[u8]) -> Outcome {
+        envelope_reply(warp_wasm::dispatch_control_intent_trusted_cbor(b))
+    }
+    fn wasm_setup() -> Option<warp_wasm::EmbeddedHandle> {
+        warp_wasm::init_embedded().ok()
+    }
+
+    fn mbus_frames(b: &[u8]) -> Outcome {
+        fin(warp_core::materialization::decode_frames(b).ok_or(()), |_| "None".into())
+    }
+    fn mbus_frame(b: &[u8]) -> Outcome {
+        fin(warp_core::materialization::MaterializationFrame::decode(b).ok_or(()), |_| "None".into())
+    }
+    fn mbus_v2(b: &[u8]) -> Outcome {
+        fin(warp_core::materialization::decode_v2_packet(b), dbg_head)
+    }
+    fn mbus_v2s(b: &[u8]) -> Outcome {
+        fin(warp_core::materialization::decode_v2_packets(b), dbg_head)
+    }
+    fn motion(b: &[u8]) -> Outcome {
+        let by = bytes::Bytes::copy_from_slice(b);
+        fin(warp_core::decode_motion_payload(&by).ok_or(()), |_| "None".into())
+    }
+
+    const TABLE: &[(&str, Dec)] = &[
+        ("abi-cbor", abi_cbor),
+        ("abi-dto-warpgraph", dto_warpgraph),
+        ("abi-dto-rewrite", dto_rewrite),
+        ("abi-dto-obsreq", dto_obsreq),
+        ("abi-dto-obsoptic", dto_obsoptic),
+        ("abi-dto-dispoptic", dto_dispoptic),
+        ("abi-dto-settle", dto_settle),
+        ("abi-dto-control", dto_control),
+        ("abi-dto-import", dto_import),
+        ("abi-dto-sched", dto_sched),
+        ("abi-dto-dispresp", dto_dispresp),
+        ("abi-dto-reginfo", dto_reginfo),
+        ("abi-dto-headinfo", dto_headinfo),
+        ("abi-dto-errenv", dto_errenv),
+        ("abi-dto-obsart", dto_obsart),
+        ("abi-env-intent", env_intent),
+        ("abi-env-control", env_control),
+        ("abi-env-import", env_import),
+        ("abi-codec", abi_codec),
+        ("abi-elog", abi_elog),
+        ("edict", edict),
+        ("ingress", ingress),
+        ("wal-subacc", wal_subacc),
+        ("wal-subenv", wal_subenv),
+        ("wal-statedelta", wal_statedelta),
+        ("wal-tick", wal_tick),
+        ("wal-corr", wal_corr),
+        ("wal-material", wal_material),
+        ("wal-reading", wal_reading),
+        ("wal-checkpoint", wal_checkpoint),
+        ("wal-cppub", wal_cppub),
+        ("wal-matintent", wal_matintent),
+        ("wal-matobs", wal_matobs),
+        ("wal-fork", wal_fork),
+        ("wal-drop", wal_drop),
+        ("wal-braid", wal_braid),
+        ("wal-shell", wal_shell),
+        ("wal-suffix", wal_suffix),
+        ("wal-segment-ro", wal_segment_ro),
+        ("wal-segment-rw", wal_segment_rw),
+        ("wsc", wsc),
+        ("wsc-view", wsc_view),
+        ("wsc-store-env", wsc_store_env),
+        ("wsc-projection", wsc_projection),
+        ("scene-delta", scene_delta),
+        ("scene-camera", scene_camera),
+        ("scene-highlight", scene_highlight),
+        ("wasm-dispatch", wasm_dispatch),
+        ("wasm-observe", wasm_observe),
+        ("wasm-control", wasm_control),
+        ("mbus-frames", mbus_frames),
+        ("mbus-frame", mbus_frame),
+        ("mbus-v2", mbus_v2),
+        ("mbus-v2s", mbus_v2s),
+        ("motion", motion),
+    ];
 
     pub fn lookup(name: &str) -> Option<Dec> {
         TABLE.iter().find(|(n, _)| *n == name).map(|(_, f)| *f)
@@ -243,7 +577,306 @@ mod decoders {
         TABLE.iter().map(|(n, _)| *n).collect()
     }
     pub fn warm_up() {}
-    pub fn print_seeds(_seed: u64) {}
+    /// per-case setup outside the measured region (fresh embedded kernel for the host boundary)
+    pub fn setup(name: &str) {
+        if name.starts_with("wasm-") {
+            let _ = wasm_setup();
+        }
+    }
+
+    // ------------------------------------------------------------------ seeds from the real encoders
+    fn h(label: &str) -> [u8; 32] {
+        blake3::hash(label.as_bytes()).into()
+    }
+    fn seed(dec: &str, b: &[u8]) {
+        println!("seed dec={dec} hex={}", super::tohex(b));
+    }
+    fn rref(label: &str, tick: u64) -> warp_core::CausalTickReceiptRef {
+        warp_core::CausalTickReceiptRef {
+            worldline_id: warp_core::WorldlineId::from_bytes(h("wl")),
+            worldline_tick_after: warp_core::WorldlineTick::from_raw(tick),
+            commit_global_tick: warp_core::GlobalTick::from_raw(tick),
+            commit_hash: h(&format!("{label}:c")),
+            submission_id: h(&format!("{label}:s")),
+            ticket_digest: h(&format!("{label}:t")),
+            receipt_content_digest: h(&format!("{label}:r")),
+        }
+    }
+    fn head_key(l: &str) -> warp_core::WriterHeadKey {
+        warp_core::WriterHeadKey { worldline_id: warp_core::WorldlineId::from_bytes(h("wl")), head_id: warp_core::HeadId::from_bytes(h(l)) }
+    }
+
+    fn wsc_seeds() -> Vec<Vec<u8>> {
+        use warp_core::wsc::types::{AttRow, NodeRow, Range};
+        use warp_core::wsc::{write_wsc_one_warp, OneWarpInput};
+        let mut out = Vec::new();
+        let empty = OneWarpInput {
+            warp_id: [0u8; 32],
+            root_node_id: [0u8; 32],
+            nodes: vec![],
+            edges: vec![],
+            out_index: vec![],
+            out_edges: vec![],
+            node_atts_index: vec![],
+            node_atts: vec![],
+            edge_atts_index: vec![],
+            edge_atts: vec![],
+            blobs: vec![],
+        };
+        out.push(write_wsc_one_warp(&empty, [0u8; 32], 0).unwrap());
+        let att = OneWarpInput {
+            warp_id: [0u8; 32],
+            root_node_id: [1u8; 32],
+            nodes: vec![NodeRow { node_id: [1u8; 32], node_type: [2u8; 32] }],
+            edges: vec![],
+            out_index: vec![Range::default()],
+            out_edges: vec![],
+            node_atts_index: vec![Range { start_le: 0u64.to_le(), len_le: 1u64.to_le() }],
+            node_atts: vec![AttRow { tag: AttRow::TAG_ATOM, reserved0: [0u8; 7], type_or_warp: [3u8; 32], blob_off_le: 0u64.to_le(), blob_len_le: 8u64.to_le() }],
+            edge_atts_index: vec![],
+            edge_atts: vec![],
+            blobs: vec![1, 2, 3, 4, 5, 6, 7, 8],
+        };
+        out.push(write_wsc_one_warp(&att, [7u8; 32], 3).unwrap());
+        // a real graph through the builder
+        let mut store = warp_core::GraphStore::default();
+        let ty = warp_core::make_type_id("t");
+        let a = warp_core::make_node_id("a");
+        let b = warp_core::make_node_id("b");
+        store.insert_node(a, warp_core::NodeRecord { ty });
+        store.insert_node(b, warp_core::NodeRecord { ty });
+        store.insert_edge(a, warp_core::EdgeRecord { id: warp_core::make_edge_id("e"), from: a, to: b, ty });
+        let input = warp_core::wsc::build_one_warp_input(&store, a);
+        out.push(write_wsc_one_warp(&input, [9u8; 32], 5).unwrap());
+        out
+    }
+
+    fn wal_segment_seed() -> Option<Vec<u8>> {
+        use wal::*;
+        let dir = std::env::temp_dir().join(format!("c13-wal-{}", std::process::id()));
+        let _ = std::fs::remove_dir_all(&dir);
+        std::fs::create_dir_all(&dir).ok()?;
+        let epoch = WriterEpochId::from_hash(h("epoch"));
+        let res = (|| -> Option<Vec<u8>> {
+            let mut store = FilesystemWalStore::open(&dir, WalSegmentId::from_raw(1)).ok()?;
+            store
+                .acquire_writer_epoch(WriterEpochRequest {
+                    epoch_id: epoch,
+                    storage_fencing_token: h("fence"),
+                    process_identity: h("proc"),
+                    host_identity: h("host"),
+                    started_at_lsn: Lsn::from_raw(0),
+                    previous_epoch_id: None,
+                    previous_epoch_final_commit_digest: None,
+                    lease_or_lock_evidence: h("lock"),
+                })
+                .ok()?;
+            let builder = WalTransactionBuilder::new(
+                epoch,
+                WalSegmentId::from_raw(1),
+                WalTransactionId::from_hash(h("tx1")),
+                WalTransactionKind::SubmissionIntake,
+                WalAppendAuthority::SubmissionIntake,
+                Lsn::from_raw(0),
+                h("prev-frame"),
+                h("prev-commit"),
+                WalDurabilityMode::StrictFilesystem,
+                PayloadCodecId::from_hash(h("codec")),
+                PayloadSchemaId::from_hash(h("schema")),
+                1,
+                1,
+                h("domain"),
+            );
+            let tx = build_submission_acceptance_transaction(
+                builder,
+                SubmissionAcceptanceRecord {
+                    submission_id: h("sub"),
+                    canonical_envelope_digest: h("env"),
+                    idempotency_key_digest: None,
+                    acceptance_evidence_digest: h("acc"),
+                },
+                vec![AffectedFrontier { kind: AffectedFrontierKind::SubmissionQueue, before_digest: h("b"), after_digest: h("a") }],
+            )
+            .ok()?;
+            store.append_transaction(tx).ok()?;
+            std::fs::read(store.segment_path()).ok()
+        })();
+        let _ = std::fs::remove_dir_all(&dir);
+        res
+    }
+
+    pub fn print_seeds(_seed: u64) {
+        use echo_wasm_abi::{encode_cbor, encode_value};
+        // ABI values / DTOs
+        let v = Value::Map(vec![
+            (Value::Text("a".into()), Value::Array(vec![Value::Integer(1.into()), Value::Bytes(vec![1, 2, 3]), Value::Float(1.5)])),
+            (Value::Text("kind".into()), Value::Null),
+        ]);
+        if let Ok(b) = encode_value(&v) {
+            seed("abi-cbor", &b);
+        }
+        let mut g = echo_wasm_abi::WarpGraph::default();
+        seed("abi-dto-warpgraph", &encode_cbor(&g).unwrap());
+        let mut fields = std::collections::BTreeMap::new();
+        fields.insert("n".to_string(), echo_wasm_abi::Value::Num(-3));
+        fields.insert("s".to_string(), echo_wasm_abi::Value::Str("x".into()));
+        g.nodes.insert("a".into(), echo_wasm_abi::Node { id: "a".into(), fields });
+        g.edges.push(echo_wasm_abi::Edge { from: "a".into(), to: "a".into() });
+        seed("abi-dto-warpgraph", &encode_cbor(&g).unwrap());
+        let rw = echo_wasm_abi::Rewrite {
+            id: 7,
+            op: echo_wasm_abi::SemanticOp::Set,
+            target: "a".into(),
+            subject: Some("f".into()),
+            old_value: None,
+            new_value: Some(echo_wasm_abi::Value::Bool(true)),
+        };
+        seed("abi-dto-rewrite", &encode_cbor(&rw).unwrap());
+        for c in [kp::ControlIntentV1::Stop, kp::ControlIntentV1::Start { mode: kp::SchedulerMode::UntilIdle { cycle_limit: Some(3) } }] {
+            seed("abi-dto-control", &encode_cbor(&c).unwrap());
+            if let Ok(b) = echo_wasm_abi::pack_control_intent_v1(&c) {
+                seed("abi-env-control", &b);
+                seed("wasm-control", &b);
+            }
+        }
+        if let Ok(b) = echo_wasm_abi::pack_intent_v1(1, b"x") {
+            seed("abi-env-intent", &b);
+            seed("wasm-dispatch", &b);
+        }
+        if let Ok(b) = echo_wasm_abi::pack_intent_v1(77, &encode_cbor(&g).unwrap()) {
+            seed("abi-env-intent", &b);
+            seed("wasm-dispatch", &b);
+        }
+        seed("abi-codec", &codec_seed());
+        {
+            let mut v = Vec::new();
+            let _ = echo_wasm_abi::write_elog_header(&mut v, &echo_wasm_abi::ElogHeader { schema_hash: [5u8; 32], flags: 0 });
+            let _ = echo_wasm_abi::write_elog_frame(&mut v, b"frame-one");
+            let _ = echo_wasm_abi::write_elog_frame(&mut v, b"");
+            seed("abi-elog", &v);
+        }
+        // host boundary: requests and the replies they produce (reply DTO seeds)
+        if let Some(hd) = wasm_setup() {
+            for (fr, pr) in [
+                (kp::ObservationFrame::CommitBoundary, kp::ObservationProjection::Head),
+                (kp::ObservationFrame::CommitBoundary, kp::ObservationProjection::Snapshot),
+            ] {
+                if let Ok(req) = kp::ObservationRequest::builtin_one_shot(
+                    kp::ObservationCoordinate { worldline_id: hd.worldline_id, at: kp::ObservationAt::Frontier },
+                    fr,
+                    pr,
+                ) {
+                    let b = encode_cbor(&req).unwrap();
+                    seed("abi-dto-obsreq", &b);
+                    seed("wasm-observe", &b);
+                    let reply = warp_wasm::observe_cbor(&b);
+                    seed("abi-dto-obsart", &reply);
+                }
+            }
+            seed("abi-dto-headinfo", &encode_cbor(&hd.head).unwrap());
+            let reply = warp_wasm::dispatch_intent_cbor(&echo_wasm_abi::pack_intent_v1(1, b"x").unwrap());
+            seed("abi-dto-dispresp", &reply);
+            seed("abi-dto-reginfo", &warp_wasm::get_registry_info_cbor());
+            seed("abi-dto-errenv", &warp_wasm::observe_cbor(&[0xf6]));
+        }
+        // edict
+        {
+            use echo_edict_canonical::CanonicalValueV1 as C;
+            let v = C::Map(vec![
+                (C::Text("k".into()), C::Array(vec![C::Integer(-7), C::Bytes(vec![9, 9]), C::Bool(true), C::Null])),
+                (C::Integer(3), C::Text("v".into())),
+            ]);
+            if let Ok(b) = echo_edict_canonical::encode_canonical_cbor_v1(&v) {
+                seed("edict", &b);
+            }
+        }
+        // retained ingress
+        {
+            let env = warp_core::IngressEnvelope::local_intent(
+                warp_core::IngressTarget::DefaultWriter { worldline_id: warp_core::WorldlineId::from_bytes([1; 32]) },
+                warp_core::make_intent_kind("x"),
+                vec![1, 2, 3],
+            );
+            let b = env.to_retained_bytes_v2();
+            seed("ingress", &b);
+            let mut v1 = b.clone();
+            v1[..8].copy_from_slice(b"EINGR001");
+            seed("ingress", &v1);
+            let env2 = warp_core::IngressEnvelope::local_intent(
+                warp_core::IngressTarget::ExactHead { key: head_key("h") },
+                warp_core::make_intent_kind("y"),
+                vec![0; 40],
+            );
+            seed("ingress", &env2.to_retained_bytes_v2());
+        }
+        // WAL payload records
+        use wal::*;
+        seed("wal-subacc", &SubmissionAcceptanceRecord { submission_id: h("s"), canonical_envelope_digest: h("e"), idempotency_key_digest: Some(h("i")), acceptance_evidence_digest: h("a") }.to_payload_bytes());
+        seed("wal-subacc", &SubmissionAcceptanceRecord { submission_id: h("s"), canonical_envelope_digest: h("e"), idempotency_key_digest: None, acceptance_evidence_digest: h("a") }.to_payload_bytes());
+        seed("wal-subenv", &WalSubmissionEnvelopeRecord { submission_id: h("s"), canonical_envelope_digest: h("e"), submission_generation: 3, head_key: head_key("h"), retained_envelope_bytes: vec![1, 2, 3, 4, 5] }.to_payload_bytes());
+        seed("wal-tick", &TickReceiptRecord { receipt_ref: rref("a", 1), decision: WalTickDecision::Applied }.to_payload_bytes());
+        seed("wal-corr", &WalReceiptCorrelationRecord { receipt_ref: rref("b", 2), causal_parent_receipts: vec![rref("a", 1)] }.to_payload_bytes());
+        seed("wal-material", &RetainedMaterialRecord { material_digest: h("m"), semantic_coordinate_digest: h("c"), kind: RetainedMaterialKind::TickReceipt, posture: EvidenceMaterialPosture::Present }.to_payload_bytes());
+        seed("wal-reading", &ReadingRefRecord { reading_id: h("r"), semantic_coordinate_digest: h("c"), payload_digest: h("p"), envelope_digest: h("e"), posture: EvidenceMaterialPosture::Present }.to_payload_bytes());
+        seed("wal-checkpoint", &CheckpointRecord { checkpoint_id: h("cp"), last_included_lsn: Lsn::from_raw(9), last_included_commit_digest: h("c"), state_root: h("s"), index_root: h("i"), retained_material_root: h("m"), schema_version: 1, created_from_wal_digest: h("w") }.to_payload_bytes());
+        seed("wal-cppub", &CheckpointPublicationRecord { checkpoint_id: h("cp"), checkpoint_digest: h("d") }.to_payload_bytes());
+        seed("wal-matintent", &MaterializationIntentRecord { effect_id: h("e"), expected_artifact_digest: h("x"), materialization_intent_digest: h("m"), idempotency_token: h("t"), target_metadata_digest: h("g") }.to_payload_bytes());
+        seed("wal-matobs", &MaterializationObservationRecord { effect_id: h("e"), observed_artifact_digest: h("o"), observed_metadata_digest: h("m") }.to_payload_bytes());
+        seed("wal-fork", &StrandForkRecord {
+            topology_intent_id: h("ti"),
+            strand_id: warp_core::StrandId::from_bytes(h("st")),
+            source_worldline_id: warp_core::WorldlineId::from_bytes(h("wl")),
+            fork_tick: warp_core::WorldlineTick::from_raw(4),
+            source_commit_hash: h("c"),
+            source_boundary_hash: h("b"),
+            child_worldline_id: warp_core::WorldlineId::from_bytes(h("cw")),
+            writer_heads: vec![head_key("h1"), head_key("h2")],
+            retention_posture_digest: h("r"),
+            issuer_evidence_digest: h("i"),
+            idempotency_key_digest: Some(h("k")),
+        }.canonicalized().to_payload_bytes());
+        seed("wal-drop", &StrandDropRecord { topology_intent_id: h("ti"), strand_id: warp_core::StrandId::from_bytes(h("st")), child_worldline_id: warp_core::WorldlineId::from_bytes(h("cw")), final_tick: warp_core::WorldlineTick::from_raw(8), drop_receipt_digest: h("d"), issuer_evidence_digest: h("i"), idempotency_key_digest: None }.to_payload_bytes());
+        seed("wal-shell", &BraidShellRetentionRecord { topology_intent_id: h("ti"), braid_id: h("b"), shell_digest: h("s"), material_digest: h("m"), basis_digest: h("ba"), outcome_kind: TopologyImportOutcomeKind::Derived, retention_posture_digest: h("r"), witness_digest: h("w"), idempotency_key_digest: Some(h("k")) }.to_payload_bytes());
+        if let Some(b) = wal_segment_seed() {
+            seed("wal-segment-ro", &b);
+            seed("wal-segment-rw", &b);
+        }
+        // WSC
+        for b in wsc_seeds() {
+            seed("wsc", &b);
+            seed("wsc-view", &b);
+            seed("wsc-projection", &b);
+            if let Ok(env) = warp_core::wsc::WscStoreEnvelope::validated(warp_core::wsc::WscStoreRecordKind::Snapshot, h("basis"), b.clone()) {
+                seed("wsc-store-env", &env.encode());
+            }
+        }
+        // scene codec
+        {
+            use echo_scene_port as sp;
+            let d = sp::SceneDelta { session_id: [1; 32], cursor_id: [2; 32], epoch: 3, ops: vec![sp::SceneOp::Clear] };
+            seed("scene-delta", &echo_scene_codec::encode_scene_delta(&d));
+            seed("scene-camera", &echo_scene_codec::encode_camera_state(&sp::CameraState::default()));
+            seed("scene-highlight", &echo_scene_codec::encode_highlight_state(&sp::HighlightState::default()));
+        }
+        // materialization frames
+        {
+            use warp_core::materialization as m;
+            let ch = m::make_channel_id("c");
+            let f1 = m::MaterializationFrame::new(ch, vec![1, 2, 3]);
+            seed("mbus-frame", &f1.encode());
+            seed("mbus-frames", &m::encode_frames(&[f1.clone(), m::MaterializationFrame::new(ch, vec![])]));
+            let hdr = m::V2PacketHeader { session_id: h("s"), cursor_id: h("c"), worldline_id: h("w"), warp_id: warp_core::WarpId(h("wp")), tick: 4, commit_hash: h("ch") };
+            let val = vec![5u8, 6, 7];
+            let ent = m::V2Entry { channel: ch, value_hash: m::compute_value_hash(&val), value: val };
+            if let Ok(b) = m::encode_v2_packet(&hdr, &[ent]) {
+                seed("mbus-v2", &b);
+                let mut two = b.clone();
+                two.extend_from_slice(&b);
+                seed("mbus-v2s", &two);
+            }
+        }
+        seed("motion", &warp_core::encode_motion_payload([1.0, 2.0, 3.0], [0.5, 0.0, -1.0]));
+    }
 }
 
 // ---------------------------------------------------------------------------------- child
@@ -299,6 +932,7 @@ fn child_main(cap: usize, stack: usize) {
                 let input = expand(m.get("in").map(String::as_str).unwrap_or("-"));
                 let len = input.len();
                 let f = decoders::lookup(&dec);
+                decoders::setup(&dec);
                 let mut res = String::with_capacity(256);
                 // announce the case before running it so the parent knows what was in flight
                 {
